@@ -178,7 +178,12 @@ def setup_inputs(chk, pid):
     for e in P.events:
         if e.kind == "store" and e.loops:
             v = e.value
-            ok = v[0] == "call" and v[1] in ("pd.concat",) and v[2] and v[2][0][0] == "list" and len(v[2][0]) == 3 and v[2][0][2][0] == "sub"
+            ok = v[0] == "call" and v[1] in ("pd.concat",) and v[2] and v[2][0][0] == "list" and len(v[2][0]) == 3
+            if ok:
+                # the second piece is the entry itself, whole and unshifted: d[k] or the value of the (k, value) pair being iterated
+                old = v[2][0][2]
+                idx = e.index
+                ok = (old[0] == "sub" and canon(old[2]) == canon(idx)) or (old[0] == "item" and old[2] == 1 and isinstance(idx, tuple) and idx[0] == "item" and idx[2] == 0 and canon(idx[1]) == canon(old[1]))
             chk.ob("C04.R6", ok, "bt/backtest.py", "Backtest._process_data", "additional-data-only-prepended", "additional data is only given the synthetic first row: rows are never shifted", where=e.where,
                    found=short(v, 140))
 
